@@ -1218,10 +1218,10 @@ func (g *gen) fullExtra(t Typ, d int, dot Typ) E {
 		return E{"def f: " + x.S + "; def g: " + y.S + "; f | g", PPipe}
 	case 14:
 		x := sub()
-		return E{"reduce " + g.of(".[]", "range(3)", "(1,2)", ".[]?", "empty") + " as " + g.of("$x", "[$a, $b]", "{a: $a}", "{$a, b: [$b]}") + " (" + g.of("0", "null", ".", "[]") + "; " + x.S + ")", PUnary}
+		return E{"reduce " + g.of("limit(3; .[])", "range(3)", "(1,2)", "limit(4; .[]?)", "empty", "first(.[]?)") + " as " + g.of("$x", "[$a, $b]", "{a: $a}", "{$a, b: [$b]}") + " (" + g.of("0", "null", ".", "[]") + "; " + x.S + ")", PUnary}
 	case 15:
 		x, y := sub(), sub()
-		return E{"foreach " + g.of(".[]", "range(3)", "(1,2)") + " as " + g.of("$x", "[$a, $b]", "{a: $a}") + " (" + g.of("0", "null", ".") + "; " + x.S + g.of("", "; "+y.S) + ")", PUnary}
+		return E{"foreach " + g.of("limit(3; .[])", "range(3)", "(1,2)") + " as " + g.of("$x", "[$a, $b]", "{a: $a}") + " (" + g.of("0", "null", ".") + "; " + x.S + g.of("", "; "+y.S) + ")", PUnary}
 	case 16:
 		x := sub()
 		return E{"label $out | " + x.S + " | ., break $out", PPipe}
@@ -1318,11 +1318,15 @@ func (g *gen) leafLiteral(t Typ) E {
 	}
 }
 
-// source is a finite generator used by reduce / foreach / any / all.
+// source is a short finite generator used by reduce / foreach.  At most a
+// handful of items: an update that multiplies the size of its state (tojson of
+// paths of the state, . + .) must not get dozens of rounds, no time limit stops
+// a single huge allocation.
 func (g *gen) source(d int, dot Typ) E {
 	switch g.n(8) {
 	case 0:
-		return E{".[]?", PTerm}
+		g.use("limit")
+		return E{"limit(4; .[]?)", PTerm}
 	case 1:
 		g.use("range")
 		return E{"range(" + g.smallInt() + ")", PTerm}
@@ -1332,17 +1336,21 @@ func (g *gen) source(d int, dot Typ) E {
 	case 3:
 		return E{"(1, 2, 3)", PTerm}
 	case 4:
+		g.use("limit")
 		x := g.expr(TArr, d, dot)
-		return E{g.wrap(x, PTerm) + "[]", PTerm}
+		return E{"limit(3; " + g.wrap(x, PTerm) + "[])", PTerm}
 	case 5:
 		x := g.expr(TAny, d, dot)
 		y := g.expr(TAny, d, dot)
-		return E{"(" + g.wrap(x, PComma) + ", " + g.wrap(y, PAlt) + ")", PTerm}
+		g.use("limit")
+		return E{"limit(4; " + g.wrap(x, PComma) + ", " + g.wrap(y, PAlt) + ")", PTerm}
 	case 6:
-		return E{"..", PTerm}
+		g.use("limit")
+		return E{"limit(" + g.of("2", "3", "4") + "; ..)", PTerm}
 	default:
+		g.use("limit")
 		x := g.expr(TAny, d, dot)
-		return E{g.wrap(x, PTerm), PTerm}
+		return E{"limit(" + g.of("1", "2", "3") + "; " + x.S + ")", PTerm}
 	}
 }
 
@@ -1466,7 +1474,7 @@ func (g *gen) loop(t Typ, d int, dot Typ) E {
 	case 6:
 		g.use("recurse")
 		f := g.expr(TAny, d-1, TAny)
-		return E{"[limit(" + g.of("3", "5", "8") + "; recurse(" + f.S + "))]", PTerm}
+		return E{"[limit(" + g.of("2", "3", "4") + "; recurse(" + f.S + "))]", PTerm}
 	case 7:
 		g.use("recurse")
 		c := g.expr(TBool, d-1, TAny)
